@@ -415,6 +415,7 @@ static Fate gen_fate(Sim *S, int stream, uint64_t ord, uint64_t now, const Dgram
 			if (S->U("fate.rdid", k2) < c.p_rd_newid) r.idxor = (uint16_t)(1 + S->D("fate.rdidv", k2) % 65535);
 			if (S->U("fate.rdcase", k2) < c.p_rd_recase) r.recase = (S->D("fate.rdcasek", k2) & 0x7fffffffffffull) | 1;
 			if (S->U("fate.rdsrc", k2) < c.p_rd_altsrc) r.altsrc = true;
+			if (S->U("fate.rdtype", k2) < c.p_rd_retype) { static const uint16_t ty[] = {10, 16, 5, 15, 33, 1, 65399}; r.retype = ty[S->D("fate.rdtypev", k2) % 7]; }
 			f.redeliv.push_back(r);
 		}
 	}
@@ -466,6 +467,10 @@ void Sim::deliver(Dgram d)
 
 static void route(Sim *S, Dgram d)
 {
+	if (!S->rd_altmap.empty() && d.src.port == 53) {
+		auto it = S->rd_altmap.find(d.dst.str());
+		if (it != S->rd_altmap.end()) { d.dst = it->second; S->count("relay.altsrc_answer_passed_on"); }
+	}
 	int dh = -1;
 	bool loop = d.dst.fam == AF_INET && d.dst.a[0] == 127;
 	if (loop) dh = d.src_host;
@@ -533,7 +538,12 @@ static void route(Sim *S, Dgram d)
 			if (S->rd_idmap.size() > 2000) S->rd_idmap.erase(S->rd_idmap.begin());
 		}
 		if (r.recase) { recase_qname(c.data, r.recase); S->count("fault.redeliver.recase"); }
-		if (r.altsrc) { if (c.src.fam == AF_INET) { c.src.a[2] ^= 0x40; c.src.a[3] ^= 0x15; } else c.src.a[15] ^= 0x15; S->count("fault.redeliver.altsrc"); }
+		if (r.retype && c.data.size() > 17) {
+			size_t o = 12; int guard = 0;
+			while (o < c.data.size() && c.data[o] && !(c.data[o] & 0xc0) && guard++ < 128) o += c.data[o] + 1;
+			if (o + 5 <= c.data.size() && !c.data[o]) { uint16_t old = (uint16_t)((c.data[o + 1] << 8) | c.data[o + 2]); if (old != r.retype) { c.data[o + 1] = r.retype >> 8; c.data[o + 2] = r.retype & 255; c.retyped = true; S->count("fault.redeliver.retype"); } }
+		}
+		if (r.altsrc) { Addr orig = c.src; if (c.src.fam == AF_INET) { c.src.a[2] ^= 0x40; c.src.a[3] ^= 0x15; } else c.src.a[15] ^= 0x15; S->rd_altmap[c.src.str()] = orig; S->count("fault.redeliver.altsrc"); }
 		S->count("fault.redeliver");
 		S->at(t + r.delay, [S, c]() { if (S->redeliver_gate && !S->redeliver_gate(c)) { S->count("fault.redeliver.outside_window"); return; } S->deliver(c); });
 	}
